@@ -440,3 +440,22 @@ def passthrough_untouched(lens, flavor, d=(0,)):
         ob('second-generation-identical', eq(tobytes(g1), tobytes(g2)) if len(tobytes(g1)) == len(tobytes(g2)) else False)
     finally:
         SF.compress, _sys.modules['zlib'] = saved
+
+
+# ------------------------------------------------------------------------------------------------ kernels shared with C04 (same code, C01's reading of it)
+from harness import C04_container as _c04
+
+
+@kernel('C01', funcs=['ttLib/ttFont.py:TTFont._writeTable', 'ttLib/tables/_h_m_t_x.py:table__h_m_t_x.compile', 'ttLib/tables/_v_h_e_a.py:table__v_h_e_a.compile'],
+        bounds='saving a font whose hmtx / vmtx trims trailing equal advances: the header count written to hhea / vhea describes the metrics bytes written, so the saved '
+               'file decodes to the same metrics (symbolic metrics, 2-3 glyphs; see C04.metrics_headers_match_saved_tables)',
+        shims=['SFile', 'struct', 'sstruct', 'array'], quick=[dict(n=2), dict(n=3)])
+def saved_metrics_decode_again(n):
+    _c04.metrics_headers_match_saved_tables(n)
+
+
+@kernel('C01', funcs=['ttLib/woff2.py:WOFF2GlyfTable._encodeTriplets', 'ttLib/woff2.py:WOFF2GlyfTable._decodeTriplets'],
+        bounds='WOFF2 flavour: the transformed glyf point stream written for any point delta over int16 x int16 decodes to the same point '
+               '(see C04.woff2_triplets_roundtrip)', shims=['array', 'bytes'], quick=[dict(n=1)], max_paths=100000)
+def woff2_points_decode_again(n):
+    _c04.woff2_triplets_roundtrip(n)
